@@ -983,7 +983,9 @@ def execute(ctx, cases):
 
 
 def run(ctx):
-    ctx.lean_stage()
+    kit.gen_stage(ctx)
+    ctx.lean_stage(extra_props=("Gen",))
+    ctx.notes.append("model tie #2: the shape bookkeeping Model/Layout.lean relies on (merge_small_dims, partitioner + shapes_for_preconditioners, _precond_dim, tearfree _derive_shapes / _blocks_metadata) regenerated from the source by harness/py2lean.py on this run; bridge theorems PrecondVerif.GenProps.C07.*")
     const_stage(ctx)
     cases = gen_cases(ctx.tier, ctx.seed)
     only = os.environ.get("C07_ONLY")
